@@ -68,7 +68,9 @@ def units(tier, seed):
         for chunk in range(4):
             out.append(dict(kind="codec", offset=off, chunk=chunk))
     for i in range(len(_hist_exprs())):
-        out.append(dict(kind="hist", expr=i))
+        for first in ("items", "ports", "sport"):
+            for held in (False, True):
+                out.append(dict(kind="hist", expr=i, first=first, held=held))
     for i in range(len(CROSS)):
         out.append(dict(kind="hist_cross", first=i))
     for i in range(len(REASSIGN)):
@@ -108,7 +110,7 @@ def run_unit(unit, ctx):
     elif k == "codec":
         _codec(unit["offset"], unit["chunk"], ctx)
     elif k == "hist":
-        _hist(_hist_exprs()[unit["expr"]], ctx)
+        _hist(_hist_exprs()[unit["expr"]], ctx, unit.get("first"), unit.get("held"))
     elif k == "hist_reassign":
         _reassign(unit["first"], ctx)
     elif k == "hist_cross":
@@ -397,13 +399,17 @@ def _run_history(line, platform, views, ctx, held=False):
     ctx.trace()
 
 
-def _hist(expr, ctx):
+def _hist(expr, ctx, first=None, held=None):
     line, platform = expr
     for n in (1, 2, 3):
         for views in itertools.product(("items", "ports", "sport"), repeat=n):
-            ctx.ev()
-            ctx.nt_count()
-            _run_history(line, platform, views, ctx)
-            if n >= 2:
+            if first is not None and views[0] != first:
+                continue
+            if held in (None, False):
+                ctx.ev()
+                ctx.nt_count()
+                _run_history(line, platform, views, ctx)
+            if n >= 2 and held in (None, True):
+                ctx.ev()
                 _run_history(line, platform, views, ctx, held=True)
     ctx.sample("history", dict(line=line, views=["ports", "sport", "items"]))
